@@ -234,6 +234,7 @@ func c07RunOne(c c07Case) c07Obs {
 	}
 	t0 := time.Now()
 	done := make(chan struct{})
+	cpu0 := cpuMillis()
 	// watchdog: time and memory ceilings; on abort the meters read so far are reported
 	go func() {
 		tick := time.NewTicker(50 * time.Millisecond)
@@ -245,9 +246,11 @@ func c07RunOne(c c07Case) c07Obs {
 			case <-tick.C:
 				var ms runtime.MemStats
 				runtime.ReadMemStats(&ms)
-				if time.Since(t0) > 45*time.Second || ms.HeapAlloc > 1500<<20 {
+				// 60 s of processor time (a case runs in a process of its own, on two threads), or ten minutes by the clock
+				over := cpuMillis()-cpu0 > 60000 || time.Since(t0) > 600*time.Second
+				if over || ms.HeapAlloc > 1500<<20 {
 					mu.Lock()
-					o.TimedOut = time.Since(t0) > 45*time.Second
+					o.TimedOut = over
 					o.Killed = !o.TimedOut
 					o.Millis = time.Since(t0).Milliseconds()
 					b, _ := json.Marshal(o)
@@ -455,7 +458,7 @@ func init() {
 				in, _ := json.Marshal(c)
 				cmd := exec.Command(self, "c07-one")
 				cmd.Stdin = strings.NewReader(string(in))
-				cmd.Env = append(os.Environ(), "GOMEMLIMIT=1800MiB")
+				cmd.Env = append(os.Environ(), "GOMEMLIMIT=1800MiB", "GOMAXPROCS=2")
 				t0 := time.Now()
 				outb, err := cmd.Output()
 				var o c07Obs
